@@ -1,4 +1,5 @@
 import AL.Model.ParseWf
+import AL.Model.Rules
 import Driver.Util
 /-
   `parsewf <numbers> <node>`: the document node as an S-expression
@@ -155,6 +156,26 @@ def handle : List String → String
     | some ns, some n =>
       let r := parse (cfgOf ns) n
       ";".intercalate (r.2.map errS) ++ "|" ++ workflowS r.1
+    | _, _ => "bad-op"
+  | _ => "bad-op"
+
+end Driver.ParseWfD
+
+namespace Driver.ParseWfD
+open AL.Yaml AL.Ast AL.PW Driver
+
+def diagS (d : AL.Rules.Diag) : String :=
+  s!"{d.pos.line}:{d.pos.col}:{d.kind}:{d.code}:{",".intercalate (d.args.map hexStr)}"
+
+/-- `lintwf <numbers> <node>`: the parser and the AST-only rules, sorted as `Linter.check` sorts -/
+def handleLint : List String → String
+  | [nums, node] =>
+    let ns : Option (List Num) := match readSExp nums with
+      | some (.atom "E") => some []
+      | some (.list l) => l.mapM numOf
+      | _ => none
+    match ns, (readSExp node) >>= nodeOf with
+    | some ns, some n => ";".intercalate ((AL.Rules.lint (cfgOf ns) n).map diagS)
     | _, _ => "bad-op"
   | _ => "bad-op"
 
